@@ -1,15 +1,46 @@
-"""Registry of the property checks (./check <ID>)."""
+"""Registry of the property checks (./check <ID>).
+
+Every module tools/c_*.py may define
+  REGISTRY = {"C21": fn(tier, seed) -> exit code, ...}
+  REPLAY   = {"engine name": fn(replay_obj) -> exit code}
+  MANIFEST = [check entries for MANIFEST.json], ENGINES = [engine entries]
+  SELFTESTS = [fn() -> (name, ok, detail)]
+They are discovered here; tools/mkmanifest.py assembles MANIFEST.json.
+"""
+import glob
+import importlib
 import json
+import os
 import subprocess
-import sys
 
 import vlib
+
+
+def modules():
+    out = []
+    for p in sorted(glob.glob(os.path.join(os.path.dirname(__file__), "c_*.py"))):
+        out.append(importlib.import_module(os.path.basename(p)[:-3]))
+    return out
+
+
+class _Lazy(dict):
+    def _load(self):
+        if not self:
+            for m in modules():
+                for k, v in getattr(m, "REGISTRY", {}).items():
+                    dict.__setitem__(self, k, v)
+
+    def get(self, k, d=None):
+        self._load()
+        return dict.get(self, k, d)
+
+
+REGISTRY = _Lazy()
 
 
 def setup():
     """MANIFEST.setup_cmd: build the harness against /repo (hooks on)."""
     vlib.cargo_build_or_die(None)
-    # TLC sanity: the spec modules parse
     r = subprocess.run(["bash", "-c", "cd %s && for m in *.tla; do tla-sany $m >/dev/null 2>&1 || echo BAD $m; done" % vlib.SPEC],
                        capture_output=True, text=True)
     if "BAD" in r.stdout:
@@ -20,8 +51,13 @@ def setup():
 
 
 def selftest():
-    import selftests
-    return selftests.run()
+    bad = 0
+    for m in modules():
+        for fn in getattr(m, "SELFTESTS", []):
+            name, ok, detail = fn()
+            print("%s %s %s" % ("ok  " if ok else "FAIL", name, detail))
+            bad += 0 if ok else 1
+    return 2 if bad else 0
 
 
 def replay(prop, path):
@@ -29,17 +65,8 @@ def replay(prop, path):
         obj = json.load(f)
     rp = obj.get("replay", obj)
     eng = rp.get("engine")
-    if eng == "sim":
-        import c_sim
-        return c_sim.replay(rp)
+    for m in modules():
+        fn = getattr(m, "REPLAY", {}).get(eng)
+        if fn:
+            return fn(rp)
     raise vlib.ToolError("no replay handler for engine %r" % eng)
-
-
-def _c03(tier, seed):
-    import c_sim
-    return c_sim.check_C03(tier, seed)
-
-
-REGISTRY = {
-    "C03": _c03,
-}
